@@ -1,7 +1,7 @@
 (* One entry point for the extracted model: kernel id + arguments -> result lines. *)
 From Coq Require Import List ZArith Bool.
 Import ListNotations.
-From PF Require Import RunC01 RunC03 RunC04 RunC05 RunC06 RunC08 RunC10 RunC11 RunC12 RunC14 RunC16 RunC17 RunC18 RunC19.
+From PF Require Import RunC01 RunC03 RunC04 RunC05 RunC06 RunC08 RunC10 RunC11 RunC12 RunC14 RunC16 RunC17 RunC18 RunC19 RunC20.
 Open Scope Z_scope.
 
 Definition run (k : Z) (args : list (list Z)) : list (list Z) :=
@@ -19,4 +19,5 @@ Definition run (k : Z) (args : list (list Z)) : list (list Z) :=
   else if (1700 <=? k) && (k <? 1800) then run_c17 k args
   else if (1800 <=? k) && (k <? 1900) then run_c18 k args
   else if (1900 <=? k) && (k <? 2000) then run_c19 k args
+  else if (2000 <=? k) && (k <? 2100) then run_c20 k args
   else [[-999]].
